@@ -256,28 +256,49 @@ impl VersionGraph {
 			let file_name = file.file_name().into_string()
 				.map_err(|file_name| anyhow!("failed to turn file name {file_name:?} into a string"))?;
 
+			/// Binds the lookup key to the version, creating the node if needed.
+			///
+			/// A key may only ever refer to one version: with both `1.4` and `1.4~server` present, the key `1.4` would
+			/// otherwise go to whichever file the directory listing happens to yield first.
+			fn claim_key(
+				versions: &mut IndexMap<String, (Split, NodeIndex)>,
+				graph: &mut Graph<NodeData, EdgeData>,
+				key: &str,
+				split: Split,
+				version_str: &str,
+				node: Option<NodeIndex>,
+			) -> Result<NodeIndex> {
+				if let Some(&(_, node_index)) = versions.get(key) {
+					if graph[node_index].name != version_str {
+						bail!("ambiguous version name {key:?}: used by both {:?} and {version_str:?}", graph[node_index].name);
+					}
+					Ok(node_index)
+				} else {
+					let node_index = node.unwrap_or_else(|| graph.add_node(NodeData::new(version_str)));
+					versions.insert(key.to_owned(), (split, node_index));
+					Ok(node_index)
+				}
+			}
+
 			fn add_node(
 				versions: &mut IndexMap<String, (Split, NodeIndex)>,
 				graph: &mut Graph<NodeData, EdgeData>,
 				version_str: &str
-			) -> NodeIndex {
+			) -> Result<NodeIndex> {
 				if let Some((client, server)) = version_str.split_once('~') {
-					let node_index = versions.entry(client.to_owned())
-						.or_insert_with(|| (Split::First, graph.add_node(NodeData::new(version_str)))).1;
+					let node_index = claim_key(versions, graph, client, Split::First, version_str, None)?;
 
-					versions.entry(server.to_owned())
-						.or_insert((Split::Second, node_index));
+					claim_key(versions, graph, server, Split::Second, version_str, Some(node_index))?;
 
-					node_index
+					Ok(node_index)
 				} else {
-					versions.entry(version_str.to_owned())
-						.or_insert_with_key(|k| (Split::None, graph.add_node(NodeData::new(k)))).1
+					claim_key(versions, graph, version_str, Split::None, version_str, None)
 				}
 			}
 
 			if let Some(version_str) = file_name.strip_suffix(MAPPINGS_EXTENSION) {
 
-				let v = add_node(&mut versions, &mut graph, version_str);
+				let v = add_node(&mut versions, &mut graph, version_str)?;
 
 				if let Some((old_root, ref old_path)) = root {
 					bail!("multiple roots present: {old_version:?} ({old_path:?}) and {version_str:?} ({path:?})", old_version = &graph[old_root].name);
@@ -288,8 +309,8 @@ impl VersionGraph {
 					bail!("expected there to be exactly one `#` in the diff file name {file_name:?}");
 				};
 
-				let v = add_node(&mut versions, &mut graph, version);
-				let p = add_node(&mut versions, &mut graph, parent);
+				let v = add_node(&mut versions, &mut graph, version)?;
+				let p = add_node(&mut versions, &mut graph, parent)?;
 
 				let edge = EdgeData { path };
 
